@@ -21,6 +21,7 @@
 #include "hfile_priv.h"
 #include "hcomp.h"
 #include "hk.h"
+#include "skpgen.h"               /* independent replica of the code tree: steers the generators, measures code lengths, decodes */
 #include "hdf/src/cskphuff.c" /* resolved through -I<REPO>: for the static HCIcskphuff_splay; the library's cskphuff.o is then not linked
                                  (every external symbol of it is defined here), so the whole engine runs this copy of the coder */
 
@@ -494,7 +495,17 @@ static void case_nbit_sweep(void)
 /* ------------------------------------------------------------------ (C) skipping Huffman
  *   T skphuff enc <skip> <hex data> => <hex raw>
  *   T skphuff dec <skip> <n> <hex raw> => <hex data>        (model decoder through its bit-id state machine)
- *   T skphuff decb <skip> <n> <hex raw> => <hex data>       (model decoder on the plain bit list: the function of the theorem) */
+ *   T skphuff decb <skip> <n> <hex raw> => <hex data>       (model decoder on the plain bit list: the function of the theorem)
+ *   T skphuff lens <skip> <hex data> => <maxbits> <maxwords> <totalbits>   longest code (bits, 32-bit words of the encoder's bit
+ *                                                            stack) and length of the whole bit stream, as measured by the
+ *                                                            replica of harness/skpgen.h; the model recomputes them from its
+ *                                                            own Hbitwrite list (ties the STATs below to the model)
+ * Inputs: random/short streams (gen_skp), and the structured families of skpgen.h (ramps, gapped ramps repeated, sorted and
+ * reverse-sorted alphabets, hill-climbed adversaries, for every skip size) that drive the trees DEEP: codes of more than 32, 64
+ * and 96 bits, i.e. 2, 3 and 4 words of the bit stack.  STAT max_skphuff_code_bits = longest code of the run (maximum, not a
+ * sum), skphuff_codes_33_64 / _65_96 / _97_128 / _gt128 = bytes coded with that many bits.
+ * Oracles besides the read-back: skp-raw-len (the stored stream has exactly the bits of the codes, rounded up to a byte) and
+ * skp-raw-decode (an independent decoder gets the data back from the stored bytes). */
 static int gen_skp(uint8_t *d, int cap)
 {
     int kind = (int)hk_range(0, 7), n = 0, target;
@@ -525,7 +536,7 @@ static void case_skphuff(void)
     int32 fid = fresh_file(&path);
     if (fid == FAIL) return;
     int skip = hk_chance(85) ? (int)hk_range(1, 9) : (int)hk_range(10, 40);
-    int n;
+    int n, structured = 0;
     if (hk_chance(15)) { /* deep trees: per lane a long two-symbol alternation, then a ramp over all symbols: codes longer than
                             32 bits (second stack word of the encoder, up to ~48 bits) */
         skip = (int)hk_range(1, 2);
@@ -534,7 +545,17 @@ static void case_skphuff(void)
         for (int i = 0; i < n; i++) { int q = i / skip; data[i] = (uint8_t)(q < a ? (q & 1) : q); }
         hk_stat("skphuff_deep_cases", 1);
     }
+    else if (hk_chance(22)) { /* structured families of skpgen.h on every lane; half of these cases steered to the deep region */
+        int fam = 0;
+        n = (int)skp_gen_structured(data, 16000, skip, hk_chance(50), &fam);
+        structured = 1;
+        hk_stat("skphuff_struct_cases", 1);
+        hk_stat(fam == SKF_RAMP ? "skphuff_fam_ramp" : fam == SKF_GAPRAMP ? "skphuff_fam_gapramp" : fam == SKF_SORTED ? "skphuff_fam_sorted" :
+                fam == SKF_ADVERSARY ? "skphuff_fam_adversary" : "skphuff_fam_altramp", 1);
+    }
     else n = gen_skp(data, (int)maxlen);
+    skp_lens sl; static uint16_t clen[MAXB + 16];
+    skp_measure(data, n, skip, &sl, clen);
     comp_info ci; model_info mi; memset(&ci, 0, sizeof ci); memset(&mi, 0, sizeof mi);
     ci.skphuff.skp_size = skip;
     int32 aid = HCcreate(fid, 1004, 5, COMP_MODEL_STDIO, &mi, COMP_CODE_SKPHUFF, &ci);
@@ -555,37 +576,64 @@ static void case_skphuff(void)
         if (n > 0) hk_fail("skp-noraw", "no DFTAG_COMPRESSED n=%d", n);
     }
     else {
+        int toolong = flen > MAXB;
         if (flen < 0 || flen > MAXB) flen = 0;
         g = flen > 0 ? Hgetelement(fid, DFTAG_COMPRESSED, fr, raw) : 0;
         if (g != flen) hk_fail("skp-getraw", "Hgetelement=%d len=%d", (int)g, (int)flen);
         int32 csz = -1, osz = -1;
         if (HCPgetdatasize(fid, 1004, 5, &csz, &osz) == FAIL) hk_fail("skp-getdatasize", "fail");
         else { if (osz != n) hk_fail("skp-origsize", "orig=%d expected %d", (int)osz, n); if (csz != -1 && csz != flen && !(n == 0)) hk_fail("skp-compsize", "comp=%d stored=%d", (int)csz, (int)flen); }
+        if (n > 0 && !toolong && g == flen) {
+            /* the stored stream is the concatenation of the codes (leaf depth bits each), padded to a byte ... */
+            if (g != (sl.total_bits + 7) / 8)
+                hk_fail("skp-raw-len", "skip=%d n=%d: %d bytes stored, the codes have %ld bits = %ld bytes (longest code %d bits)", skip, n, (int)g, sl.total_bits, (sl.total_bits + 7) / 8, sl.maxbits);
+            /* ... and an independent decoder reads the data back from it */
+            long dn = skp_decode(raw, g, skip, n, shadow), bad = 0;
+            while (bad < dn && shadow[bad] == data[bad]) bad++;
+            if (dn != n || bad < n)
+                hk_fail("skp-raw-decode", "skip=%d n=%d: the stored bytes do not decode to the data written: %ld bytes decodable, first wrong byte %ld (lane %ld, its code has %d bits = %d words of the bit stack; longest code %d bits)",
+                        skip, n, dn, bad, bad % skip, bad < n ? clen[bad] : 0, bad < n ? (clen[bad] + 31) / 32 : 0, sl.maxbits);
+        }
     }
     sb_reset(); sb_printf("T skphuff enc %d ", skip); sb_hex(data, (size_t)n); sb_printf(" => "); sb_hex(raw, (size_t)g); sb_flush();
+    if (structured || sl.maxbits > 32 || hk_chance(10)) {
+        sb_reset(); sb_printf("T skphuff lens %d ", skip); sb_hex(data, (size_t)n); sb_printf(" => %d %d %ld", sl.maxbits, (sl.maxbits + 31) / 32, sl.total_bits); sb_flush();
+    }
     /* read back: whole, then partition with seeks */
     if (n > 0) {
         aid = Hstartread(fid, 1004, 5);
         if (aid == FAIL) hk_fail("skp-startread", "fail");
         else {
             int32 r = Hread(aid, n, rbuf);
-            if (r != n || memcmp(rbuf, data, (size_t)n) != 0) hk_fail("skp-read-data", "whole read r=%d n=%d skip=%d", (int)r, n, skip);
+            if (r != n || memcmp(rbuf, data, (size_t)n) != 0) {
+                int i = 0; while (r == n && i < n && rbuf[i] == data[i]) i++;
+                hk_fail("skp-read-data", "whole read r=%d n=%d skip=%d: first wrong byte %d (lane %d, code of %d bits; longest code of the stream %d bits)", (int)r, n, skip, i, i % skip, i < n ? clen[i] : 0, sl.maxbits);
+            }
             else {
                 sb_reset(); sb_printf("T skphuff dec %d %d ", skip, n); sb_hex(raw, (size_t)g); sb_printf(" => "); sb_hex(rbuf, (size_t)n); sb_flush();
                 sb_reset(); sb_printf("T skphuff decb %d %d ", skip, n); sb_hex(raw, (size_t)g); sb_printf(" => "); sb_hex(rbuf, (size_t)n); sb_flush();
             }
             int pos = n, steps = (int)hk_range(0, 8);
             for (int s = 0; s < steps; s++) {
-                if (hk_chance(60)) { int to = (int)hk_range(0, n - 1); if (Hseek(aid, to, DF_START) == FAIL) { hk_fail("skp-seek", "to %d of %d", to, n); break; } pos = to; }
+                if (hk_chance(60)) { int to = (int)hk_range(0, n - 1); if (sl.first_long >= 0 && hk_chance(40)) to = (int)hk_range(sl.first_long > 20 ? sl.first_long - 20 : 0, sl.first_long);
+                                     if (Hseek(aid, to, DF_START) == FAIL) { hk_fail("skp-seek", "to %d of %d", to, n); break; } pos = to; }
                 int want = (int)hk_range(0, 60); if (want > n - pos) want = n - pos;
                 if (want == 0) continue;
                 r = Hread(aid, want, rbuf);
-                if (r != want || memcmp(rbuf, data + pos, (size_t)want) != 0) { hk_fail("skp-read-data", "read %d at %d (r=%d) skip=%d n=%d", want, pos, (int)r, skip, n); break; }
+                if (r != want || memcmp(rbuf, data + pos, (size_t)want) != 0) { hk_fail("skp-read-data", "read %d at %d (r=%d) skip=%d n=%d (longest code %d bits)", want, pos, (int)r, skip, n, sl.maxbits); break; }
                 pos += want;
             }
             Hendaccess(aid);
         }
     }
+    hk_stat("max_skphuff_code_bits", sl.maxbits);
+    if (sl.n33) hk_stat("skphuff_codes_33_64", sl.n33);
+    if (sl.n65) hk_stat("skphuff_codes_65_96", sl.n65);
+    if (sl.n97) hk_stat("skphuff_codes_97_128", sl.n97);
+    if (sl.n129) hk_stat("skphuff_codes_gt128", sl.n129);
+    if (sl.nwhole) hk_stat("skphuff_codes_64_96_128_exactly", sl.nwhole);
+    if (sl.maxbits > 64) hk_stat("skphuff_cases_code_gt64", 1);
+    if (sl.maxbits > 96) hk_stat("skphuff_cases_code_gt96", 1);
     hk_stat("skphuff_cases", 1); hk_stat("skphuff_bytes", n);
     Hclose(fid);
 }
